@@ -134,7 +134,10 @@ func clone(enc []byte) *types.Transactions {
 
 // verdict: "" when the group is accepted by BOTH validation and signature checking on the direct
 // route and (when it can be packed) on the packed route; otherwise the rejecting mechanism.
-func verdict(g *types.Transactions) (direct, packed string) {
+func verdict(g *types.Transactions) (direct, packed string) { return verdictAt(g, minFee) }
+
+// verdictAt judges under a given minimum fee rate (a chain may be configured with rate 0).
+func verdictAt(g *types.Transactions, minFee int64) (direct, packed string) {
 	direct = "accepted"
 	if p := vx.Catch(func() {
 		if err := g.Check(cfg, height, minFee, maxFee); err != nil {
@@ -508,6 +511,15 @@ func (w *world) run(c kase) string {
 		if p == "accepted" {
 			return "tampered group passes Check and CheckSign (packed route)"
 		}
+		// the same tampering on a chain configured with a minimum fee rate of 0
+		d0, p0 := verdictAt(g, 0)
+		r.Count("evaluations_at_fee_rate_0", 1)
+		if d0 == "accepted" {
+			return "tampered group passes Check and CheckSign when the minimum fee rate is 0 (direct route)"
+		}
+		if p0 == "accepted" {
+			return "tampered group passes Check and CheckSign when the minimum fee rate is 0 (packed route)"
+		}
 	}
 	kind := c.Kind
 	if c.Kind == "field" || c.Kind == "field-rebuild" {
@@ -651,7 +663,7 @@ func explore(n, vi int) {
 func main() {
 	clog.SetLogLevel("crit")
 	r = vx.Start("C17", "exploration")
-	r.Rule = "for every group size (quick 2,3,4,20; thorough 2..20) x 4 variants (main chain, one parachain + height expiry, time expiry + >1000-byte member, expiry set by the client SetExpire/RebuiltGroup path): the untouched signed group, every transposition, reversal, rotation, every drop (also with adjusted counts), insertion at every position of (stand-alone tx | every member of a sibling group | every member of a valid group one larger | a duplicate of every member), substitution of every member by the same (and by the equal-hash member of another honest group with a different head), every descriptor-derived field mutation of every member (bytes: first/last bit, truncate, clear, append; every single bit of every integer) (with and without the attacker re-chaining the group), head fee-1, tail fee+1, and honestly re-signed groups with head fee below the requirement / non-zero tail fee. Both the direct route (Transactions.Check/CheckSign) and the packed wire route (Transactions.Tx -> TransactionCache.Check/CheckSign) are evaluated. distinct = distinct (mutation kind[:field] -> rejecting mechanism) classes"
+	r.Rule = "for every group size (quick 2,3,4,20; thorough 2..20) x 4 variants (main chain, one parachain + height expiry, time expiry + >1000-byte member, expiry set by the client SetExpire/RebuiltGroup path): the untouched signed group, every transposition, reversal, rotation, every drop (also with adjusted counts), insertion at every position of (stand-alone tx | every member of a sibling group | every member of a valid group one larger | a duplicate of every member), substitution of every member by the same (and by the equal-hash member of another honest group with a different head), every descriptor-derived field mutation of every member (bytes: first/last bit, truncate, clear, append; every single bit of every integer) (with and without the attacker re-chaining the group), head fee-1, tail fee+1, and honestly re-signed groups with head fee below the requirement / non-zero tail fee. Tampered groups are judged under the configured minimum fee rate and under rate 0. Both the direct route (Transactions.Check/CheckSign) and the packed wire route (Transactions.Tx -> TransactionCache.Check/CheckSign) are evaluated. distinct = distinct (mutation kind[:field] -> rejecting mechanism) classes"
 	r.Assume = []string{
 		"a member re-signed with a different key but identical content is not counted as a substituted member: hashes ignore the signature by design (C16), observed and counted as observed_resigned_member_accepted",
 		"expiry of groups (IsExpire) is not part of Check/CheckSign and is not asserted here",
